@@ -92,7 +92,9 @@ func checkCompositeLiteral(
 
 	typeName := named.Obj().Name()
 	pkg := named.Obj().Pkg()
-	if pkg == nil {
+	// only package-level types carry annotations: a function-local type that merely
+	// shares the name of an annotated type is a different type
+	if pkg == nil || (named.Obj().Parent() != nil && named.Obj().Parent() != pkg.Scope()) {
 		return nil
 	}
 
@@ -159,7 +161,9 @@ func checkNewCall(
 
 	typeName := named.Obj().Name()
 	pkg := named.Obj().Pkg()
-	if pkg == nil {
+	// only package-level types carry annotations: a function-local type that merely
+	// shares the name of an annotated type is a different type
+	if pkg == nil || (named.Obj().Parent() != nil && named.Obj().Parent() != pkg.Scope()) {
 		return nil
 	}
 
@@ -232,7 +236,9 @@ func checkVarDeclaration(
 
 			typeName := named.Obj().Name()
 			pkg := named.Obj().Pkg()
-			if pkg == nil {
+			// only package-level types carry annotations: a function-local type that merely
+			// shares the name of an annotated type is a different type
+			if pkg == nil || (named.Obj().Parent() != nil && named.Obj().Parent() != pkg.Scope()) {
 				continue
 			}
 
